@@ -1357,7 +1357,17 @@ pub fn shape_hint(rng: &mut StdRng, schema: &RawSchema, idx: usize, depth: usize
 				0 => Hint::Any,
 				// (an `Option` target is also legal on a union without a null branch, of any size:
 				// the value is then always `Some`)
-				1 if null_branch.is_some() || rng.gen_bool(0.6) => Hint::Option(Box::new(Hint::Any)),
+				1 if null_branch.is_some() || rng.gen_bool(0.6) => {
+					// the inner target asks for one specific entry point (`Option<i128>`, `Option<&str>`
+					// …) whatever branch comes: the wrapper handed to `visit_some` on such a union
+					// has to forward every one of them
+					let inner = if rng.gen_bool(0.5) {
+						Hint::Any
+					} else {
+						[Hint::I64, Hint::U64, Hint::I128, Hint::U128, Hint::F64, Hint::Str, Hint::Bytes, Hint::Ignored].choose(rng).unwrap().clone()
+					};
+					Hint::Option(Box::new(inner))
+				}
 				_ => {
 					let mut variants = vec![];
 					for &b in &vs {
